@@ -66,13 +66,14 @@ Proof.
       injection H as <- <-. specialize (IH _ _ eq_refl). cbn [length]. lia.
 Qed.
 
-Lemma super_depth_go_total : forall fuel s cnt suf,
-  (length s < fuel)%nat -> super_depth_go fuel s cnt suf <> None.
+(* super_depth since 4a89bbc: whole leading "super." prefixes (strip_prefix), 6 bytes a round *)
+Lemma super_depth_go_total : forall fuel s cnt,
+  (length s < fuel)%nat -> super_depth_go fuel s cnt <> None.
 Proof.
-  induction fuel as [|f IH]; intros s cnt suf Hl; [lia|].
+  induction fuel as [|f IH]; intros s cnt Hl; [lia|].
   cbn [super_depth_go].
-  destruct (split_once_str s_super_dot s) as [[a post]|] eqn:E; [|discriminate].
-  apply IH. apply split_once_str_length in E. unfold s_super_dot in E. cbn [length] in E. lia.
+  destruct (strip_prefix s_super_dot s) as [post|] eqn:E; [|discriminate].
+  apply IH. apply strip_prefix_length in E. unfold s_super_dot in E. cbn [length] in E. lia.
 Qed.
 
 Theorem super_depth_total : forall s, super_depth s <> None.
@@ -415,8 +416,9 @@ Section CardDom.
 End CardDom.
 
 (* over-approximation of the bytes process_card emits.  One constant per node: the largest fixed
-   emission is a closure (4 instructions <= 21 bytes, scope_end <= 255 one-byte pops, emit_upvalues
-   <= 255 * 4 bytes = 1383) or a loop (Repeat: 15 instructions, one 5-byte jump, two scope_ends = 830);
+   emission is a closure (4 instructions <= 21 bytes, scope_end <= 255 pops of <= 5 bytes (CloseUpvalue
+   carries a u32 since d723a2c), emit_upvalues <= 255 * 4 bytes: 2400) or a loop (Repeat: 15 instructions,
+   one 5-byte jump, two scope_ends: 2870);
    a list child costs 3 more instructions in an Array (64); a name that is read costs
    <= 5 + 6 bytes per '.'-separated segment plus its length (it is also a bound for S7) *)
 Definition node_cost : N := 4096.
@@ -761,25 +763,26 @@ Proof.
   nocode_done HI.
 Qed.
 
+(* d723a2c: the CloseUpvalue of scope_end has a u32 operand: 5 bytes (Pop stays 1 byte) *)
 Lemma np_push_raws dbg fh js idx is :
-  Forall (fun i => spanN i = 1) is ->
-  np dbg fh js (N.of_nat (length is)) idx idx (push_raws is) (fun _ => True).
+  Forall (fun i => spanN i <= 5) is ->
+  np dbg fh js (5 * N.of_nat (length is)) idx idx (push_raws is) (fun _ => True).
 Proof.
   induction 1 as [|i r Hi _ IH]; cbn [push_raws length]; [apply np_ret_T|].
-  eapply np_cost; [eapply np_bind; [apply np_push_instr_c with (c := 1); lia | intros _ _; exact IH]|]. lia.
+  eapply np_cost; [eapply np_bind; [apply np_push_instr_c with (c := 5); lia | intros _ _; exact IH]|]. lia.
 Qed.
 
 Lemma pop_locals_instrs rls d :
-  Forall (fun i => spanN i = 1) (snd (pop_locals rls d)) /\
+  Forall (fun i => spanN i <= 5) (snd (pop_locals rls d)) /\
   (length (snd (pop_locals rls d)) <= length rls)%nat.
 Proof.
   induction rls as [|l r IH]; cbn [pop_locals]; [split; [constructor | cbn; lia]|].
   destruct (d <? l_depth l)%Z; [|split; [constructor | cbn; lia]].
   destruct (pop_locals r d) as [r' is]. cbn [snd length] in *. destruct IH as [IH1 IH2].
-  split; [|lia]. constructor; auto. destruct (l_captured l); reflexivity.
+  split; [|lia]. constructor; auto. destruct (l_captured l); vm_compute; discriminate.
 Qed.
 
-Lemma np_scope_end dbg fh js idx : np dbg fh js 255 idx idx scope_end (fun _ => True).
+Lemma np_scope_end dbg fh js idx : np dbg fh js 1275 idx idx scope_end (fun _ => True).
 Proof.
   intros s HI Hd Hf Hi Hj Hc. unfold scope_end.
   set (ds := map_hd _ (cs_depth s)). set (rlis := pop_locals _ _). set (s1 := set_scopes _ _ _ s).
@@ -793,10 +796,11 @@ Proof.
     rewrite rev_length. subst rlis. cbn [hd].
     pose proof (pop_locals_length (rev ls) (hd 0%Z ds)) as H. rewrite rev_length in H. lia. }
   pose proof (np_push_raws dbg fh js idx (snd rlis) Hsp s1 HI1 Hd Hf Hi Hj) as H.
-  assert (Hc1 : cs_pc s1 + N.of_nat (length (snd rlis)) < two32) by (cbn; lia).
+  assert (Hc1 : cs_pc s1 + 5 * N.of_nat (length (snd rlis)) < two32).
+  { change (cs_pc s1) with (cs_pc s). lia. }
   specialize (H Hc1). destruct (push_raws (snd rlis) s1) as [a s2| | |]; auto.
   destruct H as (H1 & H2 & H3 & H4 & H5 & H6 & H7 & H8).
-  np_split; auto. cbn in H7. lia.
+  np_split; auto. change (cs_pc s1) with (cs_pc s) in H7. lia.
 Qed.
 
 Lemma np_emit_upvalues_len dbg fh js idx ups :
